@@ -159,7 +159,53 @@ def run(repo: Repo, chk: Check, thorough: bool = False) -> None:
             if c.args and isinstance(c.args[0], ast.Attribute) and c.args[0].attr == 'signature':
                 chk.ob('R10.3', f'{f.qn} :: {norm(c)[:40]}', False,
                        'a Signature (whose parts are raw HTML strings) is stringified outside format_signature', repo.loc(f.mod, c))
-    chk.require('R10.3', 6)
+    # who may write Function.signature: format_signature parses str(signature) as HTML, so whatever is stored there must spell its values as escaped text.
+    # astbuilder's constructions are covered above; a Signature taken from a live object (inspect.signature of an introspected C function: defaults are the
+    # real objects, their plain repr() would become markup) has to go through a function that replaces every default / annotation by an escaping wrapper
+    def _sanitising(g: Func) -> bool:
+        reps = [c for c in calls_in(g) if call_name(c) == 'replace' and isinstance(c.func, ast.Attribute)]
+        kws = {k.arg for c in reps for k in c.keywords}
+        scope = [g] + [h for h in repo.funcs.values() if h.outer is g]
+        helpers = {nm for h in scope for c in calls_in(h) if call_name(c) == 'escape' for nm in [h.name]} | \
+            {k.name for k in repo.classes.values() if k.mod is g.mod and any(call_name(c) == 'escape' for m in k.methods.values() for c in calls_in(m))}
+        wrapped = all(any(isinstance(x, ast.Call) and (call_name(x) in helpers or any(call_name(y) in helpers for h in scope if h.name == call_name(x) for y in calls_in(h)))
+                          for x in ast.walk(k.value)) for c in reps for k in c.keywords if k.arg in ('default', 'annotation', 'return_annotation'))
+        return {'default', 'annotation', 'return_annotation', 'parameters'} <= kws and bool(helpers) and wrapped
+    # ... or the one consumer does it: format_signature stringifies the result of such a function, which keeps the escaping formatters and wraps the rest
+    def _keeps_formatters(g: Func) -> bool:
+        return any(isinstance(c, ast.Call) and call_name(c) == 'isinstance' and len(c.args) == 2 and any(nm_ in norm(c.args[1]) for nm_ in fmts)
+                   for h in [g] + [h for h in repo.funcs.values() if h.outer is g] for c in calls_in(h))
+    consumer_ok = bool(strs) and all(isinstance(c.args[0], ast.Call) and (lambda cal: bool(cal) and all(_sanitising(g) and _keeps_formatters(g) for g in cal))(repo.callees(c.args[0], fs)[0])
+                                     for c in strs)
+    n_w = 0
+    for f in repo.funcs.values():
+        if f.mod.name.startswith('pydoctor.sphinx_ext') or '.test' in f.mod.name:
+            continue
+        for a in f.walk():
+            if not (isinstance(a, ast.Assign) and any(isinstance(t, ast.Attribute) and t.attr == 'signature' for t in a.targets)):
+                continue
+            n_w += 1
+            v = a.value
+            okw, whyw = False, f'`{norm(v)[:50]}` is stored as it is: the plain repr() of its default values and annotations is parsed as HTML by format_signature'
+            if isinstance(v, ast.Constant) and v.value is None:
+                okw, whyw = True, 'None'
+            elif isinstance(v, ast.Call) and call_name(v) == 'Signature' and f.mod.name == 'pydoctor.astbuilder':
+                okw, whyw = True, 'built from the escaping value formatters (checked above)'
+            elif isinstance(v, ast.Name) and any(isinstance(n, ast.Assign) and isinstance(n.value, ast.Call) and call_name(n.value) == 'Signature' and
+                                                 any(isinstance(t, ast.Name) and t.id == v.id for t in n.targets) for n in f.walk()) and f.mod.name == 'pydoctor.astbuilder':
+                okw, whyw = True, 'built from the escaping value formatters (checked above)'
+            elif isinstance(v, ast.Call):
+                cal, _h = repo.callees(v, f)
+                if cal and all(_sanitising(g) for g in cal):
+                    okw, whyw = True, f'{cal[0].name}() replaces every default and annotation by escaped text'
+            if not okw and consumer_ok:
+                okw, whyw = True, 'stored as it is; format_signature escapes every value that is not one of the escaping formatters before it parses the text'
+            chk.ob('R10.3', f'{f.qn} :: .signature = {norm(v)[:40]}', okw,
+                   whyw if okw else whyw + ": a C function whose __text_signature__ is `($module, a='<b onclick=\"x()\">t</b>', b=b'<script>x()</script>')` puts a real "
+                   '<b onclick> and a <script> element into the page of its module (--introspect-c-modules)', repo.loc(f.mod, a))
+    if n_w < 3:
+        raise AnalysisError(f'R10.3: {n_w} assignments to .signature found (astbuilder x2, model._introspectThing x3 confirmed)')
+    chk.require('R10.3', 9)
 
     # ------------------------------------------------------------------ R10.4
     h2s = repo.func('pydoctor.stanutils.html2stan')
